@@ -103,6 +103,10 @@ func Scenarios(thorough bool) []Scenario {
 	add("asyncctx-M0||close-M0;inst-a", a, []Op{AX("M0")}, []Op{C("M0"), I("a")})
 	add("asyncctx-M0||rtclose", a, []Op{AX("M0")}, []Op{RC})
 	add("asyncctx-M0||isclosed;look", a, []Op{AX("M0")}, []Op{Q("M0"), L("a")})
+	// instantiations that arrive after the runtime was closed, with other names registered before
+	add("rtclose||inst-c;inst-d", []string{"a", "b"}, []Op{RC}, []Op{I("c"), I("d")})
+	add("rtclose||inst-c||inst-d", []string{"a", "b"}, []Op{RC}, []Op{I("c")}, []Op{I("d")})
+	add("rtclose;inst-c;inst-d;look-d", []string{"a", "b"}, []Op{RC, I("c"), I("d"), L("d")}, []Op{L("a")})
 	// runtime close
 	add("rtclose||inst-a", nil, []Op{RC}, []Op{I("a")})
 	add("rtclose||inst-a;isclosed", nil, []Op{RC}, []Op{I("a"), Q("mine")})
